@@ -81,6 +81,9 @@ def scenarios(thorough):
     for strat in ("keep", "update", "recreate"):
         out.append({"phase": "build", "label": f"undeclared-metadata-keys:handle-{strat}", "pre": legacy,
                     "script": {"build": {"kind": "pass", "ops": [{"op": "handle", "name": "a", "meta_type": "v1", "types": [True, True, True], "strategy": strat, "result": dict(RESULT3, metadata={"version": "2"})}]}}})
+    # exec.d program names that are paths: "../setup" and "setup" are different names
+    out.append({"phase": "build", "label": "execd-path-like-names:handle", "script": {"build": {"kind": "pass", "ops": [{"op": "handle", "name": "a", "types": [True, True, True], "strategy": "recreate", "result": dict(RESULT3, execd={"setup": "p1", "../setup": "p2"})}]}}})
+    out.append({"phase": "build", "label": "execd-path-like-names:write_exec_d", "script": {"build": {"kind": "pass", "ops": [{"op": "cached", "name": "a", "launch": True}, {"op": "write_exec_d", "name": "a", "programs": {"setup": "p1", "../setup": "p2"}}]}}})
     # slices listing a glob twice (inside one slice and across slices)
     red = dict(LAUNCH3, slices=[["*.a", "b", "*.a", "c", "d"], ["b", "e", "f", "e"]])
     out.append({"phase": "build", "label": "launch-redundant-slice-globs", "script": {"build": {"kind": "pass", "launch": red}}})
